@@ -1,7 +1,7 @@
 """C16 - S3 time-window lookup is exact (DESIGN.md section 6, C16).
 
 One case = one bucket (recordings created AND saved at their instant `t`, in the given order) + many lookups ("windows").
-Times are minutes since 1970-01-01T00:00 (naive UTC); `strftime('%Y%m%d')` travels to the model as the table "daytab".
+Times are SECONDS since 1970-01-01T00:00 (naive UTC; the resolution of S3's LastModified); `strftime('%Y%m%d')` travels to the model as the table "daytab".
 The case is, minus keys starting with '_', the body of the driver request "c16.multi".
 """
 import datetime
@@ -11,17 +11,18 @@ from harness.engine import Prop
 from harness.wire import to_wire, to_py
 
 EPOCH = datetime.datetime(1970, 1, 1)
-DAY = 1440
+DAY = 86400
+M = 60          # one minute
 PREFIXES = ['', 'p', 'a/b', 'xmetadata']
 
 
 def instant(t):
-    return None if t is None else EPOCH + datetime.timedelta(minutes=t)
+    return None if t is None else EPOCH + datetime.timedelta(seconds=t)
 
 
 def minutes(dt):
     d = dt - EPOCH
-    return d.days * DAY + d.seconds // 60
+    return d.days * DAY + d.seconds        # (seconds; the name is historical)
 
 
 def day_str(d):
@@ -29,7 +30,7 @@ def day_str(d):
 
 
 def fmt(t):
-    return 'none' if t is None else instant(t).strftime('%Y-%m-%d %H:%M')
+    return 'none' if t is None else instant(t).strftime('%Y-%m-%d %H:%M:%S')
 
 
 def mk_case(p, recs, windows):
@@ -193,7 +194,7 @@ class C16(Prop):
     RULE = ('hour grid over 2021-02-27..2021-03-03 (month boundary, non-leap February; 6-hour grid in the quick tier): a '
             'recording at every grid instant, every window (start, end) on the grid with explicit end, and for every `now` on '
             'the grid every start with the end defaulting to now; instants at 23:59/00:00/00:01 around midnights with windows '
-            'of <1 day crossing midnight, 24 h, 24 h +- 1 min, 48 h; one recording a day over 45 days with windows of 15-45 day folders; random minute-level buckets of 5-25 recordings in 6 days '
+            'of <1 day crossing midnight, 24 h, 24 h +- 1 min, 48 h; one recording a day over 45 days with windows of 15-45 day folders; random buckets (whole minutes and single seconds) of 5-25 recordings in 6 days '
             'with 8-20 windows (limits, filters, random order); one case = one bucket + its windows; per case additionally (not '
             'modelled): its first window with the 1st / 2nd / 3rd / 5th read request (listing step or GET) answered by an error - the '
             'lookup raises or is exact - and its first two windows consumed interleaved through one cassette; a case is non-trivial '
@@ -203,13 +204,13 @@ class C16(Prop):
                'from the controlled clock at put time)',
                "strftime('%Y%m%d') is a parameter of the model; its graph on the days of the case is computed by Python and "
                'sent to the driver as a table',
-               'datetime/timedelta/date arithmetic modelled as minutes and days (t / 1440) since 1970-01-01',
+               'datetime/timedelta/date arithmetic modelled as seconds and days (t / 86400) since 1970-01-01',
                'random.choice / shuffle replaced on both sides by the same deterministic draws (given list / rotation)',
                'metadata filter semantics: C14']
     ASSUMPTIONS = ['process clock in UTC: datetime.today() and datetime.utcnow() return the same naive instant',
                    'a recording is created and saved at the same instant (day folder of the id = day of last_modified)',
                    'end defaulting to now: nothing in the bucket is newer than now',
-                   'window bounds are naive UTC datetimes at minute resolution']
+                   'window bounds are naive UTC datetimes at one-second resolution']
     PARALLEL = 14
 
     # ------------------------------------------------------------------------------------------------------
@@ -224,7 +225,7 @@ class C16(Prop):
 
     def grid_cases(self, rng, base, hours, tag):
         b = minutes(base)
-        grid = [b + 60 * h for h in hours]
+        grid = [b + 3600 * h for h in hours]
         step = grid[1] - grid[0]
         top = grid[-1]
         cases = []
@@ -266,8 +267,8 @@ class C16(Prop):
     def boundary_cases(self, rng):
         d0 = minutes(datetime.datetime(2021, 3, 10))
         mids = [d0 + DAY * k for k in range(1, 5)]
-        inst = sorted({m + d for m in mids for d in (-60, -30, -1, 0, 1, 30, 60)} | {d0 + 720 + DAY * k for k in range(0, 5)})
-        top = inst[-1] + 2 * DAY + 5
+        inst = sorted({m + d for m in mids for d in (-60 * M, -30 * M, -M, -1, 0, 1, M, 30 * M, 60 * M)} | {d0 + 720 * M + DAY * k for k in range(0, 5)})
+        top = inst[-1] + 2 * DAY + 5 * M
 
         def recs_upto(limit, shuffled):
             pairs = [('Op', t) for t in inst if t <= limit]
@@ -280,7 +281,7 @@ class C16(Prop):
         for x in inst:
             wins += [(x, x + DAY), (x, x + DAY - 1), (x, x + DAY + 1), (x, x + 2 * DAY), (x, x + 2 * DAY - 1), (x, x - 1)]
         for m in mids:          # shorter than a day, crossing midnight, the end earlier in the day than the start
-            wins += [(m - 1, m), (m - 1, m + 1), (m - 60, m + 30), (m - 30, m + 29), (m - 720, m + 719), (m - 1, m + DAY - 2),
+            wins += [(m - 1, m), (m - 1, m + 1), (m - 60 * M, m + 30 * M), (m - 30 * M, m + 29 * M), (m - 720 * M, m + 719 * M), (m - 1, m + DAY - 2), (m - M, m + M),
                      (m - DAY + 1, m), (m - 2, m - 1 + DAY - 1)]
         wins = sorted(set(wins))
         cases = []
@@ -300,12 +301,12 @@ class C16(Prop):
             cases.append(c)
         # windows of weeks: one recording a day (and two on some days) over 45 days, windows of 15 - 45 day folders
         base = minutes(datetime.datetime(2021, 3, 1))
-        pairs = [('Op', base + DAY * k + 720) for k in range(45)] + [('Op', base + DAY * k + 5) for k in (16, 17, 31, 32, 33)]
+        pairs = [('Op', base + DAY * k + 720 * M) for k in range(45)] + [('Op', base + DAY * k + 5 * M) for k in (16, 17, 31, 32, 33)]
         pairs.sort(key=lambda ct: ct[1])
         us = self.uids(len(pairs), rng, True)
         long_recs = [{'cat': c, 'uid': u, 't': t} for (c, t), u in zip(pairs, us)]
         top = base + 46 * DAY
-        ws = [{'cat': 'Op', 's': base + DAY * a, 'e': base + DAY * b + 900, 'now': top, 'lim': None}
+        ws = [{'cat': 'Op', 's': base + DAY * a, 'e': base + DAY * b + 900 * M, 'now': top, 'lim': None}
               for a, b in ((0, 14), (0, 15), (0, 16), (0, 17), (0, 18), (1, 20), (0, 31), (0, 32), (0, 33), (0, 44), (10, 44), (28, 44))]
         ws += [{'cat': 'Op', 's': base + DAY * a, 'e': None, 'now': top, 'lim': None} for a in (0, 12, 28, 29)]
         c = mk_case(PREFIXES[1], long_recs, ws)
@@ -319,11 +320,12 @@ class C16(Prop):
     def rand_instant(self, rng, lo, days, bias):
         if rng.random() < bias:
             m = lo + DAY * rng.randint(0, days)
-            return max(lo, m + rng.choice([-61, -60, -2, -1, 0, 0, 1, 2, 59, 60, 61, rng.randint(-90, 90)]))
-        return lo + rng.randint(0, days * DAY)
+            return max(lo, m + rng.choice([-61 * M, -60 * M, -M, -2, -1, 0, 0, 1, 2, M, 59 * M, 60 * M, 61 * M, rng.randint(-90, 90), rng.randint(-90, 90) * M]))
+        t = lo + rng.randint(0, days * DAY)
+        return t if rng.random() < 0.3 else t - t % M          # mostly on whole minutes, so that equal instants happen
 
     def rand_case(self, rng, bias=0.3, p=None):
-        lo = minutes(rng.choice(self.BASES)) + rng.choice([0, 0, 1, 37, 720])
+        lo = minutes(rng.choice(self.BASES)) + rng.choice([0, 0, 1, M, 37 * M, 720 * M])
         days = 6
         n = rng.randint(5, 25)
         ts = sorted(self.rand_instant(rng, lo, days, bias) for _ in range(n))
@@ -359,12 +361,12 @@ class C16(Prop):
             elif s is None:
                 e = self.rand_instant(rng, lo, days, bias)
             elif c < 0.5:
-                e = max(0, s - rng.choice([1, 59, DAY, rng.randint(1, 3 * DAY)]))       # end before start
+                e = max(0, s - rng.choice([1, 59, M, 59 * M, DAY, rng.randint(1, 3 * DAY)]))       # end before start
             else:
-                e = s + rng.choice([0, 1, rng.randint(0, 120), rng.randint(0, DAY - 1), DAY - 1, DAY, DAY + 1, 2 * DAY,
+                e = s + rng.choice([0, 1, M, rng.randint(0, 120), rng.randint(0, 120) * M, rng.randint(0, DAY - 1), DAY - 1, DAY, DAY + 1, 2 * DAY,
                                     rng.randint(0, 6 * DAY), rng.randint(0, 6 * DAY)])
             w['e'] = e
-            w['now'] = top + rng.choice([0, 0, 0, 1, 59, DAY - 1, DAY, rng.randint(0, 2 * DAY)])
+            w['now'] = top + rng.choice([0, 0, 0, 1, 59, M, DAY - 1, DAY, rng.randint(0, 2 * DAY)])
             if rng.random() < 0.2:
                 w['f'] = wire_fields({'m': 1})
             w['lim'] = None
